@@ -23,7 +23,14 @@ def setup():
     rc, out = common.lake(['build'], timeout=7200)
     print(out[-3000:])
     print('setup: lake build rc=%d in %.0fs' % (rc, time.time() - t0))
-    return 0 if rc == 0 else 2
+    if rc not in (0, 1):
+        return 2            # lake itself could not run: infrastructure
+    if rc == 1:
+        # some module did not build (e.g. a translated model no longer proves because /repo changed): lake has
+        # built everything it could; the property checks report what is broken, setup is not the place to fail
+        failed = [l for l in out.splitlines() if l.startswith('- ')]
+        print('setup: modules with failures (reported by the checks that depend on them): %s' % failed)
+    return 0
 
 
 def main():
